@@ -53,6 +53,7 @@ def _task(args):
         L = get_loader(json.dumps(patches, sort_keys=True) if patches else None, patches)
         eng = E.Engine(deadline=deadline, timeout_ms=getattr(H, "SOLVER_TIMEOUT_MS", 20000),
                        prove_timeout_ms=getattr(H, "PROVE_TIMEOUT_MS", 60000))
+        eng.numeric_first = getattr(H, "NUMERIC_FIRST", 0)
         assumptions = set()
 
         def fn(e):
@@ -202,7 +203,13 @@ def main(argv=None):
     t0 = time.time()
     budget = getattr(H, "BUDGET_S", {"quick": 150, "thorough": 1500})[args.tier]
     deadline = t0 + budget
-    patches = json.load(open(args.mutant)) if args.mutant else None
+    if args.mutant and not os.path.exists(args.mutant):
+        from .selftest import mutants as _cat
+        from .selftest.util import module_of
+        _m = next(x for x in _cat.M if x["id"] == args.mutant)
+        patches = {module_of(_m["file"]): [[_m["old"], _m["new"]]]}
+    else:
+        patches = json.load(open(args.mutant)) if args.mutant else None
     if patches:
         patches = {k: [tuple(x) for x in v] for k, v in patches.items()}
     cfgs = H.configs(args.tier, seed)
